@@ -12,9 +12,10 @@ Model of `chi/_mechanistic_models.py` as a state machine over the *hidden state 
   construction, `_fixed_params_mask`, `_fixed_params_values`, `_empty_sensitivities`);
 * `step`    — `set_administration, set_dosing_regimen, set_outputs, set_parameter_names,
   set_output_names, enable_sensitivities, (wrap in a ReducedMechanisticModel), fix_parameters, copy`,
-  branch for branch, in two variants of `set_administration`: `legacy = true` is the code as it is,
-  `legacy = false` the behaviour the property demands (name tables refreshed on both routes with the
-  user's names kept, protocol re-attached, outputs checked before anything is changed);
+  branch for branch, for the code as it is (/repo at bcb3fc2: `set_administration` checks the selected
+  outputs first, refreshes the name tables on both routes keeping the user's names, and re-attaches the
+  regimen to the new solver); `stepLegacy` is `set_administration` before that commit (tables refreshed
+  on the indirect route only, no protocol on the new solver), kept for the counterexample theorems;
 * `observe` — `parameters(), n_parameters(), outputs(), dosing_regimen(), has_sensitivities()` and
   the call record of a `simulate`: which model the solver integrates, which protocol is attached,
   which sensitivities were requested, which named state / constant receives which position of the
@@ -302,7 +303,7 @@ def refreshTables (s : MState) (v : Variant) : MState :=
   { s with tabs := t, outputNames := t.stateNames, nOutputs := t.nStates,
            pmap := idMap t.paramNames, omap := idMap t.stateNames }
 
-/-- `PKPDModel.set_administration`, the code as it is -/
+/-- `PKPDModel.set_administration` before bcb3fc2 (kept for the counterexample theorems) -/
 def setAdminLegacy (s : MState) (a : Admin) : MState × Option Err :=
   match validAdmin b a with
   | some e => (s, some e)
@@ -320,9 +321,13 @@ def setAdminLegacy (s : MState) (a : Admin) : MState × Option Err :=
         ({ s2 with model := .dosed a, sim := ⟨.dosed a, none, none⟩, hasSens := false,
                    admin := some a }, none)
 
-/-- `set_administration` as the property demands it: outputs are checked first, the name tables are
-refreshed on both routes and keep the user's names, the regimen is attached to the new solver -/
-def setAdminIntended (s : MState) (a : Admin) : MState × Option Err :=
+/-- `PKPDModel.set_administration`, the code as it is: the selected outputs must exist in the new model
+(`ValueError`, nothing changed), the name tables are refreshed on both routes and keep the user's names,
+outputs and output names are kept, the regimen is attached to the new solver.  (The code tests
+`model.has_variable(output)`; for an output — a state or intermediary variable of the old model — that is
+the same as being a state or intermediary variable of the new one, because the depot's variables are the
+only ones that come and go and their names are fresh.) -/
+def setAdminM (s : MState) (a : Admin) : MState × Option Err :=
   match validAdmin b a with
   | some e => (s, some e)
   | none =>
@@ -400,9 +405,9 @@ def wrapM (s : MState) : Option Red :=
 
 /-! ### one step of the machine -/
 
-def stepPlain (legacy : Bool) (s : MState) : Op → MState × Option Err
+def stepPlain (s : MState) : Op → MState × Option Err
   | .setAdmin a => if !b.pkpd then (s, some .attributeError)
-                   else if legacy then setAdminLegacy b s a else setAdminIntended b s a
+                   else setAdminM b s a
   | .setRegimen r => if !b.pkpd then (s, some .attributeError) else setRegimenM s r
   | .setOutputs outs => setOutputsM b s outs
   | .setParamNames names =>
@@ -416,14 +421,14 @@ def stepPlain (legacy : Bool) (s : MState) : Op → MState × Option Err
   | .wrap => (s, none)            -- handled in `step`
   | .fix _ => (s, some .attributeError)
 
-def step (legacy : Bool) (o : Obj) (op : Op) : Obj × Option Err :=
+def step (o : Obj) (op : Op) : Obj × Option Err :=
   match o.r with
   | none =>
     match op with
     | .wrap => match wrapM o.m with
       | some r => (⟨o.m, some r⟩, none)
       | none => (o, some .keyError)
-    | _ => let (m, e) := stepPlain b legacy o.m op; (⟨m, none⟩, e)
+    | _ => let (m, e) := stepPlain b o.m op; (⟨m, none⟩, e)
   | some r =>
     match op with
     | .setAdmin _ => (o, some .attributeError)           -- the wrapper has no such method
@@ -453,9 +458,21 @@ def step (legacy : Bool) (o : Obj) (op : Op) : Obj × Option Err :=
     | .fix d => let p := fixR o.m r d; (⟨p.1.1, some p.1.2⟩, p.2)
     | .copy => (⟨copyM o.m, some { r with emptySens := false }⟩, none)
 
-def run (legacy : Bool) : Obj → List Op → Obj
+def run : Obj → List Op → Obj
   | o, [] => o
-  | o, op :: ops => run legacy (step b legacy o op).1 ops
+  | o, op :: ops => run (step b o op).1 ops
+
+/-- the machine before bcb3fc2: only `set_administration` on the unwrapped object differs -/
+def stepLegacy (o : Obj) (op : Op) : Obj × Option Err :=
+  match o.r, op with
+  | none, .setAdmin a =>
+    if !b.pkpd then (o, some .attributeError)
+    else let p := setAdminLegacy b o.m a; (⟨p.1, none⟩, p.2)
+  | _, _ => step b o op
+
+def runLegacy : Obj → List Op → Obj
+  | o, [] => o
+  | o, op :: ops => runLegacy (stepLegacy b o op).1 ops
 
 def initObj : Obj := ⟨init b, none⟩
 
@@ -722,7 +739,7 @@ f18d571, survived the reset of the sensitivity setting); kept only for its count
 def stepKeepFlag (o : Obj) (op : Op) : Obj × Option Err :=
   match o.r, op with
   | some r, .setOutputs outs => let p := setOutputsM b o.m outs; (⟨p.1, some r⟩, p.2)
-  | _, _ => step b true o op
+  | _, _ => stepLegacy b o op
 
 def runKeepFlag : Obj → List Op → Obj
   | o, [] => o
